@@ -214,6 +214,7 @@ func TestReclaim(t *testing.T) {
 			for k, x := range extra {
 				v[k] = x
 			}
+			v["goroutine_dump"] = vlib.DumpGoroutines("c14")
 			vlib.Rec.Violation(v)
 			rt.Fatalf("C14 %+v: %s\ngoroutines: %v\ndescriptors: %v\nlog: %v", h, msg, vlib.GoroutineSummary(12), vlib.FDSummary(), vlib.Tap.Tail(40))
 		}
@@ -363,7 +364,9 @@ func TestReclaim(t *testing.T) {
 		if h.Ending != "none" {
 			wait := 6 * time.Second
 			if h.Ending == "silent" {
-				wait = 45 * time.Second
+				// the multiplexer checks every 30 s whether anything arrived since its previous check: a silent carrier is
+				// noticed between 30 and 60 s after the last frame
+				wait = 75 * time.Second
 			}
 			// every idle application connection must see the end of its tunnel
 			for i, c := range idleConns {
